@@ -1,5 +1,5 @@
 --------------------------------- MODULE MC_Ordinals ---------------------------------
-(* The listing flows on every combination of price, funding UTXO values and quote of the      *)
+(* The listing and bid flows on every combination of price, funding UTXO values and quote of the      *)
 (* model: whenever a flow completes, the seller is protected and the ordinal is routed to the  *)
 (* buyer (design check), and the scenario is emitted for the real ord package.  FeePaid is     *)
 (* reported, not asserted: whether an under-funded acceptance must fail is decided on the      *)
@@ -9,22 +9,25 @@ EXTENDS Ordinals, Json
 Prices == {1, 2, 1000}
 Vals(p) == {1, p - 1, p, p + 1, p + 30, p + 5000} \ {0, -1}
 Quotes == {[ss |-> 5, sb |-> 100, ds |-> 5, db |-> 100], [ss |-> 1, sb |-> 1, ds |-> 1, db |-> 1]}
-VARIABLES flow, price, us, q, res
-vars == <<flow, price, us, q, res>>
-Init == /\ flow \in {"list", "list2d"} /\ price \in Prices /\ q \in Quotes
+SellerLens == {25, 35, 135}
+VARIABLES flow, price, us, q, sl, res
+vars == <<flow, price, us, q, sl, res>>
+Flow(f, p, u, qq, s) == CASE f = "list" -> Listing(p, u, qq, s) [] f = "list2d" -> Listing2D(p, u, qq, s)
+                          [] f = "bid" -> Bid(p, u, qq, s) [] f = "bid2d" -> Bid2D(p, u, qq, s)
+Init == /\ flow \in {"list", "list2d", "bid", "bid2d"} /\ price \in Prices /\ q \in Quotes /\ sl \in SellerLens
         /\ \E n \in 2..3 : us \in [1..n -> Vals(price)]
         /\ res = [ok |-> FALSE, why |-> "none"]
 Run == /\ res = [ok |-> FALSE, why |-> "none"]
-       /\ res' = IF flow = "list" THEN Listing(price, us, q, 25) ELSE Listing2D(price, us, q, 25)
-       /\ UNCHANGED <<flow, price, us, q>>
+       /\ res' = Flow(flow, price, us, q, sl)
+       /\ UNCHANGED <<flow, price, us, q, sl>>
 Next == Run
 Spec == Init /\ [][Next]_vars
 
 Completed == res.ok
-DesignSellerProtected == Completed => SellerProtected(res.tx, price, 25)
+DesignSellerProtected == Completed => SellerProtected(res.tx, price, sl)
 DesignOrdinalRouted == Completed => (ExactlyOneOrdinal(res.tx) /\ OrdinalRouted(res.tx))
 DesignNoValueCreated == Completed => SumOut(res.tx) <= SumIn(res.tx)
 EmitCase == (res # [ok |-> FALSE, why |-> "none"]) =>
-              PrintT(ToJson([k |-> "case", flow |-> flow, price |-> price, us |-> us, q |-> q, specok |-> res.ok,
+              PrintT(ToJson([k |-> "case", flow |-> flow, price |-> price, us |-> us, q |-> q, sx |-> sl - 25, specok |-> res.ok,
                              feepaid |-> IF res.ok THEN FeePaid(Signed(res.tx), q) ELSE FALSE]))
 =================================================================================
